@@ -114,6 +114,10 @@ class TracepointConfigService:
         :param old_config: the old config
         :param new_config: the new config
         """
+        # the update tasks run on a pool with more than one worker, so they can complete out of order. Whichever task
+        # runs last has to install the latest config we know (not the config that was current when it was submitted),
+        # else we end up acting on an old config while reporting the hash of the new one.
+        new_config = self._tracepoint_config
         listeners_copy = self._listeners.copy()
         for listeners in listeners_copy:
             try:
